@@ -281,6 +281,12 @@ def overlap_encodings(seed: int) -> List[bytes]:
 def run(cr: CheckRun) -> None:
     eh, en = _imports()
     quick = cr.tier == "quick"
+    # model-level sanity of the semantics itself: algebraic laws over a product palette of states (no implementation involved)
+    res = run_tlc(SD, "MCSemLaws", "MCSemLaws.cfg" if quick else "MCSemLaws_thorough.cfg", workers=vlib.NCPU, tag="C04-laws", timeout=3000)
+    if res.invariant_violated or "Error:" in res.out:
+        raise MachineryError("SC62015Sem violates one of its own laws (MCSemLaws):\n" + res.out[-2500:])
+    cr.add_tlc("MCSemLaws (17 algebraic laws of SC62015Sem)", res)
+    cr.mark("laws")
     encs = en.valid_structures(cr.tier, cr.seed)
     rnd = random.Random(cr.seed)
     items = []
